@@ -83,6 +83,26 @@ def history(S, d, lmin, lmax0, version, boundary, rebalancing, k, max_sel, box=(
     S.observe('lmax', [int(x) for x in sa.lmax])
 
 
+def history2(S, d, lmin, lmax0, version, boundary, rebalancing, k, max_sel):
+    """Two refinement histories on ONE strategy object (performSpatiallyAdaptiv called again on the same instance starts from the initial
+    refinement): the second history is checked like the first, with the interpolant evaluated after every step of both."""
+    SD, GO, G, EC, RO, RC = dw.mods()
+    a = [0.0] * d
+    b = [1.0] * d
+    f = lib.make_function(S, 'F', d, 1)
+    sa, op, grid = dw.make_instance(f, a, b, boundary=boundary, version=version, rebalancing=rebalancing)
+    for run in range(2):
+        dw.prepare_without_evaluation(sa, lmin, lmax0, EC.ErrorCalculatorSingleDimVolumeGuided())
+        sa.refinements = 0
+        sa.counter = 1
+        for step in range(k):
+            dw.scripted_refine(S, sa, d, 10 * run + step, max_sel)
+            if run == 1:
+                dw.structure_goals(S, sa, d, 'hist2-structure')
+            dw.grid_goals(S, sa, d, f, 'hist2-run%d' % (run + 1), boundary, check_interp=True)
+    S.observe('points', [len(dw.container_state(sa, kk)[1]) for kk in range(d)])
+
+
 BOUNDS = {
     'quick': {'state: (points per dim, lmin, lmax0)': [((6, 5), 1, 2), ((7, 5), 1, 2), ((6, 6), 1, 2), ((9, 9), 1, 3), ((10, 9), 1, 3), ((10, 9), 2, 3)],
               'one-sided states': '8x8 points (all extra points inside one initial interval per dimension), versions 6,7', 'versions': [6, 2, 3, 7, 8], 'boundary': [True, False], 'history': 'd=2, (lmin,lmax0)=(1,2), k<=2 steps, <=2 selected intervals per step (or all), rebalancing on/off'},
@@ -144,4 +164,9 @@ def jobs(tier):
                                   {'d': d, 'lmin': lmin, 'lmax0': lmax0, 'version': version, 'boundary': boundary, 'rebalancing': reb, 'k': k,
                                    'max_sel': 2 if (d == 2 and lmax0 == 2) else 1},
                                   validate=(23 if tier == 'quick' else 7), budget_s=(600 if tier == 'quick' else 3000)))
+    for (d, lmin, lmax0, k, version, boundary, reb) in ([(2, 1, 2, 1, 6, True, False), (2, 1, 2, 1, 3, True, True)] if tier == 'quick' else
+                                                       [(2, 1, 2, 1, v, bd, rb) for v in (6, 3, 7) for bd in (True, False) for rb in (True, False)] + [(2, 1, 2, 2, 6, True, False)]):
+        js.append(Job('hist2[d=%d,l=%d-%d,v=%d,%s,%s,k=%d]' % (d, lmin, lmax0, version, 'b' if boundary else 'nb', 'rebal' if reb else 'norebal', k), history2,
+                      {'d': d, 'lmin': lmin, 'lmax0': lmax0, 'version': version, 'boundary': boundary, 'rebalancing': reb, 'k': k, 'max_sel': 1},
+                      validate=(7 if tier == 'quick' else 3), budget_s=(600 if tier == 'quick' else 3000)))
     return js
